@@ -23,6 +23,8 @@ ORDER_SENSITIVE = {"connect": "inserts a new key into Instance.conns", "disconne
 
 
 # objects known to be instances of the set-owning cache classes (`X = C()` at module / class level, and local aliases of them)
+NEEDS_PDKS = True  # the walker-state clause covers the PDK packages
+
 OWNER_OBJECTS = {"_mgr", "CLASS_LEVEL_CACHE", "Cache", "cache", "the_cache", "THE_CACHE"}
 
 
@@ -227,6 +229,30 @@ def check(repo: Repo, R) -> None:
                     f"iteration over the address-hashed set `{ast.unparse(it)}` reaches order-sensitive effects {{{'; '.join(f'{k}: {v}' for k, v in sens.items())}}}; "
                     + ("an order is imposed first (sorted by names)" if ordered else "NO order is imposed"),
                     why="the order of an instance's connections (or of generated names) in the package changes with PYTHONHASHSEED / allocation history when one bundle feeds several ports")
+    # picking "an" element of a set (next(iter(S)), S.pop(), list(S)[0]) observes the hash order unless S has exactly one
+    from . import shared as _shp
+    npick = 0
+    for fi in list(repo.funcs_in("hdl21/")):
+        for c in au.calls_in(fi.node, nested=True):
+            src = None
+            if isinstance(c.func, ast.Name) and c.func.id == "next" and c.args and isinstance(c.args[0], ast.Call) and isinstance(c.args[0].func, ast.Name) and c.args[0].func.id == "iter" and c.args[0].args:
+                src = c.args[0].args[0]
+            elif isinstance(c.func, ast.Attribute) and c.func.attr == "pop" and not c.args:
+                src = c.func.value
+            if src is None or _iter_source(src, sets)[0] is None:
+                continue
+            npick += 1
+            stxt = ast.unparse(src)
+            one = _shp.conds_imply(_shp.resolved_conditions(fi.node, _shp.path_conditions(fi.node, c)), [(_shp.parse_cond(f"len({stxt}) == 1"), True)]) is True
+            R.check(one, rule, key_of(fi, f"pick-from-{_iter_source(src, sets)[0]}"), fi.at(c),
+                    f"`{ast.unparse(c)[:60]}` takes an element of the address-hashed set `{stxt}`" + (" where it is known to hold exactly one" if one else " without knowing that it holds exactly one: WHICH element depends on the hash order"),
+                    why="with several PDKs registered and no default set, the PDK a design is compiled to changes from one process to the next")
+    R.note(f"single-element picks from set-typed attributes: {npick}")
+    # what one compile remembers is gone with its walker: a class-level table outlives it, and which device objects a
+    # design gets depends on the unrelated designs compiled before
+    from . import c15 as _c15
+    R.run(_c15.walkers_only_swap_targets, repo, _shp.Retag(R, lambda r, k: "C12.6-nothing-outlives-a-compile" if k.endswith("class-state") else None,
+                                                          "device calls cached on the walker class are shared by every compile of the process: which instances share one device call — and thereby the names and order of the exported external modules — depends on earlier, unrelated work"))
     if n < 5:
         raise AnalysisError(f"anchor-vanished: only {n} iterations over set-typed attributes found")
     R.floor(rule, 5)
